@@ -26,7 +26,7 @@ LABELS = ['g1', 'g2', 'g3', 'g4']
 XLABELS = ['empty1', 'empty2', 'E.faecalis_V583', 'P.fa.lciparum.fasta_x', '#7_isolate', 'E. coli K-12, substr. "MG1655"']
 DIMS = dict(
 	channel=['positional', 'list', 'list-no-final-newline', 'list-crlf', 'list-blank-lines', 'sigfile'],
-	comp=['stored', 'opposite', 'multi-member-gzip', 'mixed', 'symlink'],      # mixed: alternately from the plain and the gzip directory (same label, different files)
+	comp=['stored', 'opposite', 'multi-member-gzip', 'mixed', 'symlink', 'misnamed'],      # mixed: alternately from the plain and the gzip directory (same label, different files)
 	cores=['unset', '1', '2', '16'],
 	progress=['--no-progress', '--progress'],
 	fmt=['csv', 'json', 'archive'],
@@ -80,7 +80,7 @@ def invoke(fx, d, batch, v, tag='out'):
 		args.append('--strict')
 	if v['cores'] != 'unset':
 		args += ['-c', v['cores']]
-	src = {'stored': (fx.q, 'q'), 'opposite': (fx.qgz, 'qalt'), 'multi-member-gzip': (fx.qmulti, 'qmulti'), 'mixed': (fx.q, 'q'), 'symlink': (fx.qlink, 'qlinks')}[v['comp']]
+	src = {'stored': (fx.q, 'q'), 'opposite': (fx.qgz, 'qalt'), 'multi-member-gzip': (fx.qmulti, 'qmulti'), 'mixed': (fx.q, 'q'), 'symlink': (fx.qlink, 'qlinks'), 'misnamed': (fx.qmis, 'qmis')}[v['comp']]
 	if any(l in clifix.EXTRA_QUERIES for l in batch):
 		src = (dict(fx.q, **fx.qx), 'q')           # the extra genomes exist in their stored form only
 	paths = [src[0][l] for l in batch]
